@@ -242,8 +242,8 @@ inline bool pgp_form_valid(const Pkt &k, int form) {
 }
 inline Bytes pgp_join(const std::vector<Pkt> &v) { Bytes o; for (auto &k : v) { Bytes e = pgp_encode(k, pgp_natural_form(k)); o.insert(o.end(), e.begin(), e.end()); } return o; }
 
-enum PClass { P_ID = 0, P_LENFORM, P_LENVAL, P_PARTIAL, P_TAG, P_VERSION, P_ALGO, P_MPI, P_SUBPKT, P_PKT_DEL, P_PKT_DUP, P_PKT_SWAP, P_TRUNC, P_FLIP, P_SPLICE, P_NEST, P_NCLASS };
-static const char *const pclass_name[P_NCLASS] = { "id", "len-form", "len-value", "partial-len", "tag", "version", "algorithm", "mpi-bits", "subpacket", "pkt-del", "pkt-dup", "pkt-swap", "trunc", "byteflip", "splice", "nesting" };
+enum PClass { P_ID = 0, P_LENFORM, P_LENVAL, P_PARTIAL, P_TAG, P_VERSION, P_ALGO, P_MPI, P_SUBPKT, P_PKT_DEL, P_PKT_DUP, P_PKT_SWAP, P_TRUNC, P_FLIP, P_SPLICE, P_NEST, P_BODYCUT, P_NCLASS };
+static const char *const pclass_name[P_NCLASS] = { "id", "len-form", "len-value", "partial-len", "tag", "version", "algorithm", "mpi-bits", "subpacket", "pkt-del", "pkt-dup", "pkt-swap", "trunc", "byteflip", "splice", "nesting", "body-cut" };
 
 static const unsigned long lenvals[] = { 0, 1, 2, 191, 192, 8383, 8384, 0xFFFF, 0x10000, 0x7FFFFFFF, 0x80000000UL, 0xFFFFFFFEUL, 0xFFFFFFFFUL };
 static const size_t n_lenvals = sizeof(lenvals) / sizeof(lenvals[0]);
@@ -259,6 +259,10 @@ struct PArt {
 	struct Area { size_t pkt, off; };          // offset of a two-octet subpacket-area length
 	std::vector<Mpi> mpi; std::vector<Sub> sub; std::vector<Area> area;
 	std::vector<std::pair<size_t, size_t>> algo;   // (pkt, offset) of algorithm / type octets
+	// body cut: packet body shortened to `len` octets with a consistent header, at every field boundary
+	// (+-1) and for all short lengths; ver: 0 as is, 1 key packet converted v4 -> v5 (octet count inserted)
+	struct Cut { size_t pkt, len; int ver; };
+	std::vector<Cut> cuts;
 };
 
 inline size_t scan_mpis(PArt &a, size_t pi, size_t off, size_t maxn) {
@@ -295,6 +299,19 @@ inline PArt pparse(const Bytes &raw) {
 		else if (t == 4) { for (size_t k = 1; k < b.size() && k < 4; k++) a.algo.push_back({i, k}); }
 		else if (t == 8 || t == 9 || t == 18 || t == 20 || t == 11) { a.algo.push_back({i, 0}); if (t == 20) for (size_t k = 1; k < b.size() && k < 4; k++) a.algo.push_back({i, k}); }
 	}
+	for (size_t i = 0; i < a.p.size(); i++) {
+		const Bytes &b = a.p[i].body; unsigned t = a.p[i].tag; std::vector<size_t> L;
+		for (size_t l = 0; l < 16 && l < b.size(); l++) L.push_back(l);
+		auto around = [&](size_t o) { for (long d = -1; d <= 2; d++) { long x = (long)o + d; if (x >= 0 && (size_t)x < b.size()) L.push_back((size_t)x); } };
+		for (auto &m : a.mpi) if (m.pkt == i) { around(m.off); size_t by = (((b[m.off] << 8) | b[m.off + 1]) + 7) / 8; around(m.off + 2 + by); }
+		for (auto &al : a.algo) if (al.first == i) around(al.second);
+		for (auto &s : a.sub) if (s.pkt == i) { around(s.off); around(s.off + s.hlen); around(s.off + s.hlen + s.len); }
+		for (auto &ar : a.area) if (ar.pkt == i) around(ar.off);
+		if (b.size() > 24) { L.push_back(b.size() - 1); L.push_back(b.size() - 2); L.push_back(b.size() - 20); L.push_back(b.size() - 22); }
+		std::sort(L.begin(), L.end()); L.erase(std::unique(L.begin(), L.end()), L.end());
+		bool key4 = (t == 5 || t == 6 || t == 7 || t == 14) && !b.empty() && b[0] == 4;
+		for (size_t l : L) { a.cuts.push_back({i, l, 0}); if (key4) a.cuts.push_back({i, l, 1}); }
+	}
 	return a;
 }
 
@@ -317,6 +334,7 @@ inline size_t pcount(const PArt &a, int c) {
 	case P_FLIP: return len * 4;
 	case P_SPLICE: return len;
 	case P_NEST: return N_NEST_OPS;
+	case P_BODYCUT: return a.cuts.size();
 	}
 	return 0;
 }
@@ -335,7 +353,7 @@ inline Bytes pmutate(const PArt &a, int c, size_t v, vf::Rng &r, const Bytes &ot
 		size_t i = (v / (n_lenvals * 3)) % np; unsigned long L = lenvals[(v / 3) % n_lenvals]; int st = v % 3; const Pkt &k = a.p[i]; Bytes e;
 		if (st == 0) { e.push_back(0xC0 | (k.tag & 0x3f)); e.push_back(255); put_be(e, L, 4); }
 		else if (st == 1) { e.push_back(0x80 | ((k.tag & 0x0f) << 2) | 2); put_be(e, L, 4); }
-		else { e.push_back(0xC0 | (k.tag & 0x3f)); if (L < 192) e.push_back(L); else if (L < 8384) { e.push_back(((L - 192) >> 8) + 192); e.push_back((L - 192) & 0xff); } else { e.push_back(0x80 | ((k.tag & 0x0f) << 2) | 1); e[0] = e.back(); e.pop_back(); put_be(e, L & 0xffff, 2); } }
+		else { if (L < 192) { e.push_back(0xC0 | (k.tag & 0x3f)); e.push_back(L); } else if (L < 8384) { e.push_back(0xC0 | (k.tag & 0x3f)); e.push_back(((L - 192) >> 8) + 192); e.push_back((L - 192) & 0xff); } else { e.push_back(0x80 | ((k.tag & 0x0f) << 2) | 1); put_be(e, L & 0xffff, 2); } }
 		e.insert(e.end(), k.body.begin(), k.body.end()); return join_with(a, i, e); }
 	case P_PARTIAL: { size_t i = (v / N_PARTIAL_OPS) % np; const Pkt &k = a.p[i]; Bytes e; e.push_back(0xC0 | (k.tag & 0x3f)); size_t l = k.body.size();
 		switch (v % N_PARTIAL_OPS) {
@@ -397,6 +415,10 @@ inline Bytes pmutate(const PArt &a, int c, size_t v, vf::Rng &r, const Bytes &ot
 		switch (v % 4) { case 0: s[o] ^= (unsigned char)(1 << r.below(8)); break; case 1: s[o] = (unsigned char)r.below(256); break; case 2: s.erase(s.begin() + o); break; default: s.insert(s.begin() + o, (unsigned char)r.below(256)); }
 		return s; }
 	case P_SPLICE: { size_t o = v % (a.raw.size() + 1); size_t p = other.empty() ? 0 : r.below(other.size() + 1); Bytes s(a.raw.begin(), a.raw.begin() + o); s.insert(s.end(), other.begin() + p, other.end()); return s; }
+	case P_BODYCUT: { const PArt::Cut &c = a.cuts[v % a.cuts.size()]; Pkt k = a.p[c.pkt];
+		if (c.ver == 1) { k.body[0] = 5; if (k.body.size() >= 6) { size_t rest = k.body.size() - 6; Bytes cnt; put_be(cnt, rest, 4); k.body.insert(k.body.begin() + 6, cnt.begin(), cnt.end()); } k.body.resize(std::min(k.body.size(), c.len >= 6 ? c.len + 4 : c.len)); }
+		else k.body.resize(c.len);
+		return join_with(a, c.pkt, pgp_encode(k, pgp_natural_form(k))); }
 	case P_NEST: { // compressed-data / literal / marker wrappers
 		Pkt k; k.newfmt = true; Bytes inner = a.raw;
 		switch (v % N_NEST_OPS) {
